@@ -5,6 +5,7 @@ import (
 	"fmt"
 	"io"
 	"net"
+	"os"
 	"sync"
 	"time"
 
@@ -199,6 +200,9 @@ func (r *RawConn) readLoop() {
 				return
 			}
 			p := append([]byte{}, buf[:n]...)
+			if os.Getenv("VERIF_RAW_DEBUG") != "" {
+				fmt.Printf("DEBUG udp datagram %d bytes\n", n)
+			}
 			r.mu.Lock()
 			if n < 4 || int(binary.BigEndian.Uint32(p)) != n {
 				r.errs = append(r.errs, fmt.Sprintf("datagram of %d bytes with length prefix % x", n, p[:min(4, n)]))
@@ -222,6 +226,9 @@ func (r *RawConn) readLoop() {
 			r.errs = append(r.errs, fmt.Sprintf("illegal length prefix %d from server", n))
 			r.mu.Unlock()
 			return
+		}
+		if os.Getenv("VERIF_RAW_DEBUG") != "" {
+			fmt.Printf("DEBUG tcp packet %d bytes\n", n)
 		}
 		body := make([]byte, n-4)
 		if _, err := io.ReadFull(r.C, body); err != nil {
